@@ -20,30 +20,19 @@ abbrev Table := List (List Nat × Nat)
 def Table.insert (t : Table) (k : List Nat) (v : Nat) : Table :=
   if t.any (fun e => e.1 == k) then t.map (fun e => if e.1 == k then (k, v) else e) else t ++ [(k, v)]
 
-structure St where
-  iter : Nat
-  table : Table
-deriving Repr
-
 mutual
   /-- `BodyStructParser::parse` -/
-  def walk (pre : List Nat) : Tree → St → St
-    | .leaf id, s => { s with table := s.table.insert pre id }
-    | .multi id cs, s =>
-      let s1 := { s with table := s.table.insert pre id }
-      let s2 := walkChildren pre 0 cs s1
-      { s2 with iter := 1 }
-  /-- `for (i, n) in bodies.iter().enumerate() { self.iter += i as u32; push(self.iter); parse(n); pop() }` -/
-  def walkChildren (pre : List Nat) (i : Nat) : List Tree → St → St
-    | [], s => s
-    | c :: cs, s =>
-      let it := s.iter + i
-      let s1 := walk (pre ++ [it]) c { s with iter := it }
-      walkChildren pre (i + 1) cs s1
+  def walk (pre : List Nat) : Tree → Table → Table
+    | .leaf id, t => t.insert pre id
+    | .multi id cs, t => walkChildren pre 1 cs (t.insert pre id)
+  /-- `for (i, n) in bodies.iter().enumerate() { push(i as u32 + 1); parse(n); pop() }`; `k` = i + 1 -/
+  def walkChildren (pre : List Nat) (k : Nat) : List Tree → Table → Table
+    | [], t => t
+    | c :: cs, t => walkChildren pre (k + 1) cs (walk (pre ++ [k]) c t)
 end
 
 /-- `BodyStructParser::new(root)` -/
-def table (root : Tree) : Table := (walk [] root { iter := 1, table := [] }).table
+def table (root : Tree) : Table := walk [] root []
 
 /-- the paths `search` may return for a predicate on node identifiers (any of them, the `HashMap`
     iteration order decides) -/
